@@ -15,14 +15,14 @@ def families(tier):
 
 def run(v):
     big = D.conv_family(SEED + 1050, 30, max_named=6, maxlen=3, budget=10**9) + D.cmd_family(SEED + 1051, 20, depth=3, budget=10**9)
-    cov = run_cmdline_property(v, families(v.tier), "MC_CmdLine_design.cfg", signature=cmdline_sig.signature,
+    cov = run_cmdline_property(v, families(v.tier), "MC_CmdLine_design.cfg", signature=cmdline_sig.signature, ledger_every=(6 if v.tier == "quick" else 1),
                                driver={"defs": big, "n": 20000 if v.tier == "quick" else 300000, "maxlen": 12, "mutate": 0.8})
     # the same property on choices, optional/repeated groups and adjacent groups (GroupLine engine)
     gfam = (D.group_family(SEED, 4, 3000) + D.alt_family(SEED + 53, 15, maxlen=4, budget=3000) + D.adj_family(SEED + 54, 12, maxlen=5, budget=3000)) if v.tier == "quick" \
         else (D.group_family(SEED, 5, 40000) + D.alt_family(SEED + 53, 80, maxlen=5, budget=40000) + D.adj_family(SEED + 54, 45, maxlen=6, budget=40000))
     gbig = D.alt_family(SEED + 1053, 25, budget=10**9) + D.adj_family(SEED + 1054, 18, budget=10**9)
     gcov = run_cmdline_property(v, gfam, None, replay_cfg="MC_GroupLine_replay.cfg", module="MC_GroupLine",
-                                signature=cmdline_sig.signature, trace_module="GroupLineTrace", name="C05g",
+                                signature=cmdline_sig.signature, ledger_every=(6 if v.tier == "quick" else 1), trace_module="GroupLineTrace", name="C05g",
                                 driver={"defs": gbig, "n": 10000 if v.tier == "quick" else 200000,
                                         "gen": lambda rnd, d: [("line", linegen.group_line(rnd, d, 0.8))]})
     cov = merge_cov(cov, gcov, "groupline")
